@@ -286,3 +286,524 @@ def gen_doc(rng, profile='full'):
             continue
         if g.n <= 120:
             return html, sorted(g.features), g.n
+
+
+# =====================================================================================================
+#  Display list: an interpreter of the page content streams (pdfread tokenizer), independent of WeasyPrint
+# =====================================================================================================
+
+def m_mul(a, b):
+    """PDF matrices as (a, b, c, d, e, f); row-vector convention: p' = p x M; returns a x b (a applied first)."""
+    return (a[0] * b[0] + a[1] * b[2], a[0] * b[1] + a[1] * b[3],
+            a[2] * b[0] + a[3] * b[2], a[2] * b[1] + a[3] * b[3],
+            a[4] * b[0] + a[5] * b[2] + b[4], a[4] * b[1] + a[5] * b[3] + b[5])
+
+
+def m_apply(m, x, y):
+    return (m[0] * x + m[2] * y + m[4], m[1] * x + m[3] * y + m[5])
+
+
+def m_inv(m):
+    det = m[0] * m[3] - m[1] * m[2]
+    a, b, c, d = m[3] / det, -m[1] / det, -m[2] / det, m[0] / det
+    return (a, b, c, d, -(m[4] * a + m[5] * c), -(m[4] * b + m[5] * d))
+
+
+IDENT = (1.0, 0.0, 0.0, 1.0, 0.0, 0.0)
+
+
+def _bezier(p0, p1, p2, p3, n=8):
+    pts = []
+    for k in range(1, n + 1):
+        t = k / n
+        u = 1 - t
+        pts.append((u * u * u * p0[0] + 3 * u * u * t * p1[0] + 3 * u * t * t * p2[0] + t * t * t * p3[0],
+                    u * u * u * p0[1] + 3 * u * u * t * p1[1] + 3 * u * t * t * p2[1] + t * t * t * p3[1]))
+    return pts
+
+
+class _GS(object):
+    __slots__ = ('ctm', 'fill', 'stroke', 'ca', 'CA', 'clips', 'lw', 'font', 'fsize', 'rise', 'dash')
+
+    def copy(self):
+        g = _GS()
+        for k in self.__slots__:
+            setattr(g, k, getattr(self, k))
+        return g
+
+
+def _glyphs_of(s):
+    b = bytes(s)
+    return [int.from_bytes(b[i:i + 2], 'big') for i in range(0, len(b) - 1, 2)]
+
+
+def interpret(doc, data, resources, gs, out, problems, depth=0):
+    """Append display items to `out`.  Items are dicts: kind in fill|stroke|text|image|group; device coordinates."""
+    import pdfread
+    try:
+        ops = pdfread.tokenize_content(data)
+    except pdfread.PDFError as exc:
+        problems.append('tokenize: %s' % exc)
+        return
+    stack = []
+    path, cur, start = [], None, None      # path: list of subpaths (lists of device points, closed flag)
+    pending_clip = None
+    tm = tlm = IDENT
+    in_text = False
+    fresh_tm = False
+
+    def res(cat, name):
+        d = doc.resolve(resources.get(cat)) if resources else None
+        return doc.resolve(d.get(str(name))) if isinstance(d, dict) else None
+
+    def pt(x, y):
+        return m_apply(gs.ctm, x, y)
+
+    def finish(paint):
+        nonlocal path, cur, start, pending_clip
+        subpaths = [sp for sp in path if len(sp[0]) >= 1]
+        if paint in ('fill', 'both'):
+            out.append(dict(kind='fill', rgb=gs.fill, alpha=gs.ca, path=[list(sp[0]) for sp in subpaths],
+                            evenodd=paint_eo[0], clips=gs.clips, ctm=gs.ctm))
+        if paint in ('stroke', 'both'):
+            out.append(dict(kind='stroke', rgb=gs.stroke, alpha=gs.CA, path=[list(sp[0]) for sp in subpaths],
+                            closed=[sp[1] for sp in subpaths], lw=gs.lw, clips=gs.clips, ctm=gs.ctm, dash=gs.dash))
+        if pending_clip is not None:
+            gs.clips = gs.clips + ((tuple(tuple(sp[0]) for sp in subpaths), pending_clip == 'eo'),)
+            pending_clip = None
+        path, cur, start = [], None, None
+    paint_eo = [False]
+
+    for op, a in ops:
+        try:
+            if op == 'q':
+                stack.append(gs.copy())
+            elif op == 'Q':
+                if stack:
+                    g = stack.pop()
+                    for k in _GS.__slots__:
+                        setattr(gs, k, getattr(g, k))
+                else:
+                    problems.append('Q without q')
+            elif op == 'cm':
+                gs.ctm = m_mul(tuple(float(x) for x in a), gs.ctm)
+            elif op == 'gs':
+                d = res('ExtGState', a[0])
+                if isinstance(d, dict):
+                    if 'ca' in d:
+                        gs.ca = float(d['ca'])
+                    if 'CA' in d:
+                        gs.CA = float(d['CA'])
+                    if 'SMask' in d and str(d['SMask']) != 'None':
+                        problems.append('SMask in ExtGState')
+                else:
+                    problems.append('unknown ExtGState %s' % a[0])
+            elif op == 'rg':
+                gs.fill = tuple(float(x) for x in a)
+            elif op == 'RG':
+                gs.stroke = tuple(float(x) for x in a)
+            elif op == 'g':
+                gs.fill = (float(a[0]),) * 3
+            elif op == 'G':
+                gs.stroke = (float(a[0]),) * 3
+            elif op in ('k', 'K', 'cs', 'CS', 'sc', 'scn', 'SC', 'SCN'):
+                if op in ('k', 'sc', 'scn', 'cs'):
+                    gs.fill = ('special', op)
+                else:
+                    gs.stroke = ('special', op)
+            elif op == 'w':
+                gs.lw = float(a[0])
+            elif op == 'd':
+                gs.dash = (tuple(float(x) for x in a[0]), float(a[1]))
+            elif op == 'm':
+                cur = start = pt(float(a[0]), float(a[1]))
+                path.append([[cur], False])
+            elif op == 'l':
+                cur = pt(float(a[0]), float(a[1]))
+                path[-1][0].append(cur)
+            elif op == 'c':
+                p1, p2, p3 = pt(float(a[0]), float(a[1])), pt(float(a[2]), float(a[3])), pt(float(a[4]), float(a[5]))
+                path[-1][0].extend(_bezier(cur, p1, p2, p3))
+                cur = p3
+            elif op == 'v':
+                p2, p3 = pt(float(a[0]), float(a[1])), pt(float(a[2]), float(a[3]))
+                path[-1][0].extend(_bezier(cur, cur, p2, p3))
+                cur = p3
+            elif op == 'y':
+                p1, p3 = pt(float(a[0]), float(a[1])), pt(float(a[2]), float(a[3]))
+                path[-1][0].extend(_bezier(cur, p1, p3, p3))
+                cur = p3
+            elif op == 'h':
+                if path:
+                    path[-1][1] = True
+                    cur = start
+            elif op == 're':
+                x, y, w, h = (float(v) for v in a)
+                path.append([[pt(x, y), pt(x + w, y), pt(x + w, y + h), pt(x, y + h)], True])
+                cur = start = pt(x, y)
+            elif op in ('W', 'W*'):
+                pending_clip = 'eo' if op == 'W*' else 'nz'
+            elif op == 'n':
+                finish(None)
+            elif op in ('f', 'F', 'f*'):
+                paint_eo[0] = op == 'f*'
+                finish('fill')
+            elif op in ('S', 's'):
+                if op == 's' and path:
+                    path[-1][1] = True
+                finish('stroke')
+            elif op in ('B', 'B*', 'b', 'b*'):
+                paint_eo[0] = op.endswith('*')
+                finish('both')
+            elif op == 'BT':
+                tm = tlm = IDENT
+                in_text = True
+                fresh_tm = False
+            elif op == 'ET':
+                in_text = False
+            elif op == 'Tf':
+                gs.font, gs.fsize = str(a[0]), float(a[1])
+            elif op == 'Tm':
+                tm = tlm = tuple(float(x) for x in a)
+                fresh_tm = True
+            elif op in ('Td', 'TD'):
+                tlm = m_mul((1, 0, 0, 1, float(a[0]), float(a[1])), tlm)
+                tm = tlm
+                fresh_tm = True
+            elif op == 'Ts':
+                gs.rise = float(a[0])
+            elif op in ('Tj', 'TJ', "'", '"'):
+                glyphs, adjust = [], []
+                seq = a[0] if op == 'TJ' else [a[-1]]
+                for el in seq:
+                    if isinstance(el, (int, float)):
+                        adjust.append((len(glyphs), float(el)))
+                    else:
+                        glyphs.extend(_glyphs_of(el))
+                fobj = doc.resolve(resources.get('Font')) if resources else None
+                fref = fobj.get(gs.font) if isinstance(fobj, dict) else None
+                out.append(dict(kind='text', rgb=gs.fill, alpha=gs.ca, font=gs.font,
+                                fontref=(fref.num if hasattr(fref, 'num') else None), size=gs.fsize,
+                                tm=m_mul(tm, gs.ctm), glyphs=glyphs, adjust=adjust, rise=gs.rise, clips=gs.clips,
+                                origin_known=fresh_tm, ctm=gs.ctm))
+                fresh_tm = False
+            elif op == 'Do':
+                xo = res('XObject', a[0])
+                if xo is None or not hasattr(xo, 'dict'):
+                    problems.append('unknown XObject %s' % a[0])
+                    continue
+                sub = str(xo.dict.get('Subtype'))
+                if sub == 'Form':
+                    if depth > 12:
+                        problems.append('form nesting too deep')
+                        continue
+                    g2 = gs.copy()
+                    mat = doc.resolve(xo.dict.get('Matrix'))
+                    if mat:
+                        g2.ctm = m_mul(tuple(float(x) for x in mat), g2.ctm)
+                    fres = doc.resolve(xo.dict.get('Resources')) or resources
+                    items = []
+                    is_group = xo.dict.get('Group') is not None
+                    if is_group:
+                        g2.ca = g2.CA = 1.0       # group contents start with their own alpha state
+                    interpret(doc, doc.stream_data(xo) or b'', fres, g2, items, problems, depth + 1)
+                    if is_group:
+                        out.append(dict(kind='group', alpha=gs.ca, items=items, clips=gs.clips, name=str(a[0])))
+                    else:
+                        out.extend(items)
+                elif sub == 'Image':
+                    out.append(dict(kind='image', alpha=gs.ca, clips=gs.clips, ctm=gs.ctm, name=str(a[0])))
+        except (IndexError, TypeError, ValueError) as exc:
+            problems.append('operator %s %r: %s' % (op, a, exc))
+
+
+def new_gs():
+    g = _GS()
+    g.ctm, g.fill, g.stroke, g.ca, g.CA, g.clips, g.lw = IDENT, (0.0, 0.0, 0.0), (0.0, 0.0, 0.0), 1.0, 1.0, (), 1.0
+    g.font, g.fsize, g.rise, g.dash = None, 0.0, 0.0, None
+    return g
+
+
+def parse_tounicode(doc, fontref_num):
+    """gid -> str from the font's ToUnicode CMap (bfchar and bfrange sections)."""
+    import re
+    f = doc.objects.get(fontref_num)
+    if not isinstance(f, dict):
+        return None
+    tu = doc.resolve(f.get('ToUnicode'))
+    if tu is None or not hasattr(tu, 'dict'):
+        return None
+    data = (doc.stream_data(tu) or b'').decode('latin-1')
+    table = {}
+    def u16(h):
+        b = bytes.fromhex(h)
+        return b.decode('utf-16-be', 'replace')
+    for sect in re.findall(r'beginbfchar(.*?)endbfchar', data, re.S):
+        for g, u in re.findall(r'<([0-9A-Fa-f]+)>\s*<([0-9A-Fa-f]*)>', sect):
+            table[int(g, 16)] = u16(u)
+    for sect in re.findall(r'beginbfrange(.*?)endbfrange', data, re.S):
+        for lo, hi, u in re.findall(r'<([0-9A-Fa-f]+)>\s*<([0-9A-Fa-f]+)>\s*<([0-9A-Fa-f]*)>', sect):
+            lo, hi = int(lo, 16), int(hi, 16)
+            base = u16(u)
+            for k in range(lo, hi + 1):
+                table[k] = base[:-1] + chr(ord(base[-1]) + k - lo) if base else ''
+        for lo, hi, arr in re.findall(r'<([0-9A-Fa-f]+)>\s*<([0-9A-Fa-f]+)>\s*\[(.*?)\]', sect, re.S):
+            lo = int(lo, 16)
+            for k, u in enumerate(re.findall(r'<([0-9A-Fa-f]*)>', arr)):
+                table[lo + k] = u16(u)
+    return table
+
+
+def display_lists(pdf_bytes):
+    """-> (list per page of dict(items, height, width, problems), doc)"""
+    import pdfread
+    doc = pdfread.parse(pdf_bytes)
+    pages = []
+    for page in doc.pages():
+        items, problems = [], []
+        mb = [float(x) for x in doc.resolve(page.get('MediaBox'))]
+        interpret(doc, doc.page_content(page) or b'', doc.resolve(page.get('Resources')) or {}, new_gs(), items, problems)
+        pages.append(dict(items=items, mediabox=mb, problems=problems + list(doc.problems)))
+    return pages, doc
+
+
+def flatten_items(items, group_alpha=1.0, groups=()):
+    """Depth-first list of leaf items; each gets 'galpha' (product of the enclosing groups' alphas) and
+    'groups' (their names)."""
+    out = []
+    for it in items:
+        if it['kind'] == 'group':
+            out.extend(flatten_items(it['items'], group_alpha * it['alpha'], groups + (it['name'],)))
+        else:
+            it = dict(it)
+            it['galpha'] = group_alpha
+            it['groups'] = groups
+            out.append(it)
+    return out
+
+
+# =====================================================================================================
+#  Reference: CSS 2.1 Appendix E over the layout records (independent of weasyprint/stacking.py)
+# =====================================================================================================
+
+BLOCK_LEVEL = {'BlockBox', 'TableCaptionBox', 'FootnoteAreaBox', 'FlexBox', 'GridBox', 'TableBox', 'InlineTableBox',
+               'BlockReplacedBox'}
+ATOMIC_INLINE = {'InlineBlockBox', 'InlineFlexBox', 'InlineGridBox'}
+
+
+class Ref(object):
+    """Paint order of one page.  boxes: records in preorder (impl_c17.render_display).
+    overflow_ctx: WeasyPrint lets overflow != visible form a stacking context (kept, reported as a deviation)."""
+
+    def __init__(self, boxes, overflow_ctx=True):
+        self.b = boxes
+        self.overflow_ctx = overflow_ctx
+        self.out = []
+
+    # -- classification (CSS 2.1 9.9.1, css-color-3 opacity, css-transforms-1)
+    def positioned(self, n):
+        return self.b[n]['position'] != 'static'
+
+    def z(self, n):
+        r = self.b[n]
+        if r['z'] is None or not (self.positioned(n) or r['git']):
+            return 0                  # z-index applies to positioned boxes (and grid items) only
+        return r['z']
+
+    def creates(self, n):
+        r = self.b[n]
+        return ((self.positioned(n) or r['git']) and r['z'] is not None) or r['opacity'] < 1 or \
+            bool(r['transform']) or (self.overflow_ctx and r['overflow'] != 'visible')
+
+    def floated(self, n):
+        return self.b[n]['floated'] and not self.positioned(n) and not self.creates(n)
+
+    def atomic(self, n):
+        return self.b[n]['cls'] in ATOMIC_INLINE and not (self.creates(n) or self.positioned(n) or self.b[n]['floated'])
+
+    def inflow(self, n):
+        return not (self.creates(n) or self.positioned(n) or self.b[n]['floated'] or self.b[n]['cls'] in ATOMIC_INLINE)
+
+    def kids(self, n):
+        return self.b[n]['kids']
+
+    # -- collections
+    def child_contexts(self, n):
+        res = []
+        def walk(k):
+            if self.creates(k):
+                res.append(k)
+                return
+            if self.positioned(k):
+                res.append(k)
+            for c in self.kids(k):
+                walk(c)
+        for c in self.kids(n):
+            walk(c)
+        return res
+
+    def flow_walk(self, n):
+        """in-flow descendants in tree order, plus the floats met at the boundary: yields (kind, box)."""
+        for c in self.kids(n):
+            if self.inflow(c):
+                yield ('flow', c)
+                for x in self.flow_walk(c):
+                    yield x
+            elif self.floated(c):
+                yield ('float', c)
+
+    # -- emission
+    def emit(self, n, layer):
+        self.out.append((n, layer))
+
+    def table(self, t):
+        self.emit(t, 'bg')
+        groups = [g for g in self.kids(t) if self.inflow(g)]
+        for g in groups:
+            self.emit(g, 'bg')
+            for r in [r for r in self.kids(g) if self.inflow(r)]:
+                self.emit(r, 'bg')
+                for c in [c for c in self.kids(r) if self.inflow(c)]:
+                    if self.b[t].get('collapse') or not self.b[c]['hid']:
+                        self.emit(c, 'bg')
+        if self.b[t].get('collapse'):
+            self.emit(t, 'collapsed')
+            return
+        self.emit(t, 'border')
+        for g in groups:
+            for r in [r for r in self.kids(g) if self.inflow(r)]:
+                for c in [c for c in self.kids(r) if self.inflow(c)]:
+                    if not self.b[c]['hid']:
+                        self.emit(c, 'border')
+
+    def inline(self, n):
+        """an inline-level box (or line box) painted in place"""
+        if self.atomic(n):
+            self.context(n, False)
+            return
+        if not self.inflow(n):
+            return
+        self.emit(n, 'bg')
+        self.emit(n, 'border')
+        cls = self.b[n]['cls']
+        if cls in ('InlineBox', 'LineBox'):
+            for c in self.kids(n):
+                self.inline(c)
+        else:
+            self.emit(n, 'content')
+
+    def lines(self, n):
+        ks = [c for c in self.kids(n) if self.inflow(c) or self.atomic(c)]
+        if self.b[n]['cls'] in ('BlockReplacedBox', 'InlineReplacedBox'):
+            self.emit(n, 'content')
+        elif ks and all(self.b[c]['cls'] == 'LineBox' for c in ks):
+            for c in ks:
+                self.inline(c)
+
+    def context(self, n, root):
+        r = self.b[n]
+        self.out.append((n, 'open'))
+        if r['tm'] == 'TSingular':
+            self.out.append((n, 'close'))
+            return
+        cls = r['cls']
+        if cls not in ('InlineBox', 'PageBox'):
+            self.emit(n, 'bg')
+            self.emit(n, 'border')
+        if cls == 'TableRowBox':
+            cells = [c for c in self.kids(n) if self.inflow(c)]
+            for c in cells:
+                self.emit(c, 'bg')
+            for c in cells:
+                self.emit(c, 'border')
+        if cls == 'TableRowGroupBox':
+            rows = [x for x in self.kids(n) if self.inflow(x)]
+            for x in rows:
+                self.emit(x, 'bg')
+                for c in [c for c in self.kids(x) if self.inflow(c)]:
+                    self.emit(c, 'bg')
+            for x in rows:
+                for c in [c for c in self.kids(x) if self.inflow(c)]:
+                    self.emit(c, 'border')
+        cs = self.child_contexts(n) if (root or self.creates(n)) else []
+        for c in sorted([c for c in cs if self.z(c) < 0], key=self.z):
+            self.context(c, False)
+        flow = list(self.flow_walk(n))
+        for kind, c in flow:
+            if kind == 'flow' and self.b[c]['cls'] in BLOCK_LEVEL:
+                if self.b[c]['cls'] in ('TableBox', 'InlineTableBox'):
+                    self.table(c)
+                else:
+                    self.emit(c, 'bg')
+                    self.emit(c, 'border')
+        for kind, c in flow:
+            if kind == 'float':
+                self.context(c, False)
+        if cls == 'InlineBox':
+            self.emit(n, 'bg')
+            self.emit(n, 'border')
+            for c in self.kids(n):
+                self.inline(c)
+        self.lines(n)
+        for kind, c in flow:
+            if kind == 'flow' and (self.b[c]['cls'] in BLOCK_LEVEL or self.b[c]['cls'] == 'TableCellBox'):
+                self.lines(c)
+        for c in [c for c in cs if self.z(c) == 0]:
+            self.context(c, False)
+        for c in sorted([c for c in cs if self.z(c) > 0], key=self.z):
+            self.context(c, False)
+        self.out.append((n, 'close'))
+
+    def page(self):
+        """page box (record 0): its children are contexts, sorted by z-index like child contexts"""
+        kids = self.kids(0)
+        self.out.append((0, 'open'))
+        for c in sorted([c for c in kids if self.z(c) < 0], key=self.z):
+            self.context(c, True)
+        for c in [c for c in kids if self.z(c) == 0]:
+            self.context(c, True)
+        for c in sorted([c for c in kids if self.z(c) > 0], key=self.z):
+            self.context(c, True)
+        self.out.append((0, 'close'))
+        return self.out
+
+
+# ------------------------------------------------------------------- expected visible paints of a page
+
+def colour_index(rgb):
+    """(r, g, b) floats -> unique colour number m of the generator, or None when it is not one of them."""
+    try:
+        v = [round(x * 15) for x in rgb[:3]]
+    except TypeError:
+        return None
+    if any(abs(x * 15 - r) > 0.02 for x, r in zip(rgb[:3], v)):
+        return None
+    return v[0] + 16 * v[1] + 256 * v[2] - 1
+
+
+def visible_tokens(boxes, order, canvas):
+    """order: [(box, layer)] from a painter -> [(box, role, colour index)] of the paints that put ink in the
+    display list: backgrounds with a colour, borders with a visible side, non-blank text."""
+    toks = []
+    singular = set()
+    for n, layer in order:
+        r = boxes[n]
+        if layer in ('open', 'close'):
+            continue
+        if not r['visible']:
+            continue
+        if layer == 'bg':
+            if r['bgcolor'] and r['bgcolor'][3] > 0 and not r.get('bg_to_canvas'):
+                toks.append((n, 'bg', colour_index(r['bgcolor'])))
+        elif layer == 'border':
+            sides = [s for s in 'trbl' if (r['b' + s] or 0) > 0 and r['bs' + s] not in ('none', 'hidden')
+                     and r['bc' + s] and r['bc' + s][3] > 0]
+            if sides:
+                cols = sorted(set(colour_index(r['bc' + s]) for s in sides), key=lambda v: (v is None, v))
+                toks.append((n, 'border', cols[0] if len(cols) == 1 else tuple(cols)))
+        elif layer == 'collapsed':
+            toks.append((n, 'collapsed', None))
+        elif layer == 'content':
+            if r['cls'] == 'TextBox' and r.get('text', '').strip():
+                toks.append((n, 'text', colour_index(r['color'])))
+    return toks
